@@ -138,9 +138,16 @@ def gen(rng, tier):
         d.update(su=su, sv=sv, s=s)
         out.append(Case('pos', "mesh pos %s %d %d %d" % (_surf_line(d), su, sv, s), d))
     # 3. containers and exporters
-    for _ in range(45 if quick else 400):
+    # the first rounds are fixed probes (every writer with THREE surfaces; the container mesh with / without delta, even first
+    # size = rebuilt after reset(), component set through the container), the rest is random
+    fixed = [('obj', 3, False, 0), ('off', 3, False, 0), ('stl', 3, False, 0), ('stlb', 3, False, 0), ('cont', 3, False, 0),
+             ('cont', 3, True, 0), ('cont', 2, True, 1), ('cont', 2, False, 1), ('off', 2, False, 0), ('obj', 2, True, 0)]
+    for rnd in range(45 if quick else 400):
+        fx = fixed[rnd] if rnd < len(fixed) else None
         n = rng.randint(1, 3)
         s = rng.choice([1, 1, 2, 3])
+        if fx:
+            n = fx[1]
         sizes = []
         for k in range(n):
             a = rng.randint(1, 3 if quick else 6) * s + 1
@@ -152,6 +159,12 @@ def gen(rng, tier):
         what = rng.choice(['obj', 'off', 'cont', 'stl', 'stlb'])
         d = dict(what=what, s=s, sizes=sizes, surfs=surfs, single=(n == 1 and rng.random() < .5),
                  update=(rng.random() < .3))
+        if fx:
+            what = fx[0]; d['what'] = what; d['update'] = fx[2]
+            if (sizes[0][0] % 2 == 0) != (fx[3] == 0):
+                sizes[0][0] += s if s % 2 else 1          # parity of the first size selects the rebuild / own-component paths
+                if sizes[0][0] == sizes[0][1]:
+                    sizes[0][1] += s
         if d['update']:
             d['sizes'] = [sizes[0] for _ in sizes]
         if what == 'obj' and rng.random() < .4:
